@@ -335,6 +335,12 @@ def run_shard(spec):
                 hist.append([nest_text(ni, d, rnd.choice(BREAKERS)), fnames[i % 3 == 0]])
             else:
                 hist.append([nest_text(ni, rnd.choice([1, 3, 10, 30, 60, 90])), fnames[i % 3 == 0]])
+            if i % 40 == 7:
+                # a parse that ends with an exception that is not a ParseError (RecursionError from a nest deeper than the
+                # interpreter allows), after typedefs were declared and scopes opened; then small programs that notice leftovers
+                hist.append(["typedef int T; typedef char U;\nint f(void) { { return " + "(" * 3000 + "1" + ")" * 3000 + "; } }\n", "deep.c"])
+                hist.append([rnd.choice(["int T;", "int U = 1; int T = 2;", "T x;", "typedef long T; T y;", "void g(void) { T * U; }"]), "after.c"])
+                cnt["non_parse_error_failures"] = cnt.get("non_parse_error_failures", 0) + 1
         # several instances, each with a long life: one history per 100 calls plus the whole history on one instance
         for h in [hist] + [hist[k:k + 100] for k in range(0, len(hist), 100)]:
             vs = eval_history(h, fresh)
